@@ -146,6 +146,7 @@ class World:
         self.holder = None  # ghost: connection that was told it holds
         self.step_no = -1
         self.trace = []
+        self.errors = []
 
     # -- enabledness is decided from the ghost only (never from the code)
     def enabled(self, ev):
@@ -181,12 +182,12 @@ class World:
         must_grant = False
         if kind == 'acq':
             if c is not None:
-                c.fire_timers()  # the old generation is long gone
+                self._timers(c)  # the old generation is long gone
             c = Conn(k, 0 if c is None else c.gen + 1)
             self.slots[k] = c
             self.all.append(c)
             c.acquired = True
-            c.proto.dataReceived(_request(Func.acquire, c.name))
+            self._data(c, _request(Func.acquire, c.name))
         elif kind == 'poll':
             must_grant = (
                 self.holder is None
@@ -199,7 +200,7 @@ class World:
         elif kind == 'rel':
             was_holder = self.holder is c
             c.asked_release = True
-            c.proto.dataReceived(_request(Func.release))
+            self._data(c, _request(Func.release))
             if was_holder:
                 self.holder = None
                 c.holding = False
@@ -212,8 +213,7 @@ class World:
                     )
         elif kind == 'disc':
             was_holder = self.holder is c
-            c.alive = False
-            c.proto.connectionLost(None)
+            self._lost(c)
             if was_holder:
                 self.holder = None
                 c.holding = False
@@ -225,7 +225,7 @@ class World:
                         'lock free',
                     )
         elif kind == 'timer':
-            c.fire_timers()
+            self._timers(c)
         else:
             raise ValueError(kind)
 
@@ -243,6 +243,33 @@ class World:
                 % c.name,
             )
         self._invariants()
+
+    # -- an exception escaping a callback is handled as Twisted does: a
+    #    delayed call logs it, dataReceived additionally drops the connection
+    def _timers(self, c):
+        try:
+            c.fire_timers()
+        except Exception as exc:  # pylint: disable=broad-except
+            c.stop_fired = True
+            self.errors.append((self.step_no, c.name, 'timer', repr(exc)))
+
+    def _lost(self, c):
+        c.alive = False
+        try:
+            c.proto.connectionLost(None)
+        except Exception as exc:  # pylint: disable=broad-except
+            self.errors.append((self.step_no, c.name, 'lost', repr(exc)))
+
+    def _data(self, c, data):
+        try:
+            c.proto.dataReceived(data)
+        except Exception as exc:  # pylint: disable=broad-except
+            self.errors.append((self.step_no, c.name, 'data', repr(exc)))
+            if c.alive:
+                if self.holder is c:
+                    self.holder = None
+                    c.holding = False
+                self._lost(c)
 
     def _observe(self):
         for c in self.all:
@@ -608,6 +635,7 @@ class Scene:
         self.free_at_poll = False  # oracle: lock was free when B polled
         self.a_done = False
         self.nested = False
+        self.a_polls = 0
 
     def connect(self, _address):
         c = Conn(len(self.conns), 0)
@@ -617,6 +645,13 @@ class Scene:
         return s
 
     def blocked(self, sock):
+        if len(self.conns) < 2:
+            # A alone on a free lock: let its poll timer fire a few times
+            self.a_polls += 1
+            if self.a_polls > 3:
+                raise _Blocked()
+            self.conns[0].clock.advance(POLL_PERIOD)
+            return
         if self.nested or not self.script:
             raise _Blocked()
         step = self.script.pop(0)
@@ -649,13 +684,21 @@ def run_client_script(script):
     '''returns violation dict or None'''
     scene = Scene(script)
     dawgie.security.connect = scene.connect
-    sa = comms.acquire('A')
+    try:
+        sa = comms.acquire('A')
+    except _Blocked:
+        sa = None
     a = scene.conns[0]
     if not a.has_lock() or sa is None:
         return {
             'clause': 'C13.client',
             'signature': 'first-acquire-not-granted',
-            'observed': 'acquire() returned without owning the free lock',
+            'observed': 'acquire() on a free lock '
+            + (
+                'still blocks after 3 polls'
+                if sa is None
+                else 'returned without owning the lock'
+            ),
             'expected': 'lock granted',
         }
     returned = False
@@ -735,7 +778,7 @@ def run(tier: str, seed: int) -> dict:
     t0 = time.time()
     thorough = tier == 'thorough'
     depth = 8 if thorough else 6
-    budget = 200.0 if thorough else 9.0
+    budget = 150.0 if thorough else 8.0
     nslots = 3
     cases = 0
     sigs = set()
@@ -779,7 +822,7 @@ def run(tier: str, seed: int) -> dict:
     # 1b. breadth-first over distinct states (one history per state)
     mdepth = 14 if thorough else 9
     mcases, msigs, mfound, mcomplete = _merged_bfs(
-        mdepth, nslots, t0 + (240.0 if thorough else 12.0)
+        mdepth, nslots, t0 + (220.0 if thorough else 12.0)
     )
     cases += mcases
     sigs |= {(sg, -1) for sg in msigs}
